@@ -1,5 +1,5 @@
 #!/usr/bin/env python3
-"""Mini-Rust -> Gallina translator for the leaf integer arithmetic of /repo (C16 / C19 / C11).
+"""Mini-Rust -> Gallina translator for the leaf integer arithmetic of /repo (C16 / C19 / C11 / C09 / C07).
 
    python3 tools/gen_arith.py [REPO] [DEST_DIR]
 
@@ -8,12 +8,13 @@ function, in which file, under which impl / macro, which kind of extraction), pa
 a hand-written tokenizer and recursive-descent parser, and writes
     coq/theories/Gen/Arith.v        usize arithmetic, explicit machine arithmetic (Model/U64.v)
     coq/theories/Gen/ArithNumeric.v the from_usize macro family (Model/Numeric.v vocabulary)
-Proofs/GenArithP.v, GenArithViewsP.v (C16), GenNumericP.v (C19) and GenMatrixP.v (C11) prove every
+Proofs/GenArithP.v, GenArithViewsP.v (C16), GenNumericP.v (C19), GenMatrixP.v (C11), GenIterP.v (C09)
+and GenHeapP.v (C07) prove every
 generated definition equal to the hand-written model function the property theorems are about.
 Nothing here knows what the functions are SUPPOSED to compute: a function whose body leaves the
 supported subset is NOT emitted (a comment says why), so the equivalence lemma that mentions it
 stops compiling.  Supported subset, translation scheme, extraction kinds (fn / for / closure /
-from_fn / tryfold / for_mut / retain / positions): notes/GEN.md.  Tests: tools/test_gen_arith.py
+from_fn / tryfold / for_mut / retain / positions / positions_with / fnmut / trace): notes/GEN.md.  Tests: tools/test_gen_arith.py
 (snippet table + differential self-test against the compiled crate).  Python stdlib only."""
 import os, re, sys
 
@@ -416,6 +417,14 @@ class Parser:
                 return items[0] if len(items) == 1 and not trailing else ("tuple", items)
             if t == "{":
                 return self.block()
+            if t == "[":
+                self.next()
+                el = self.expr()
+                if not self.accept(";"):
+                    raise Unsupported("array literal other than [e; N]")
+                n = self.expr()
+                self.expect("]")
+                return ("arrayrep", el, n)
             if t == "|" or t == "||":
                 params = []
                 if self.next().text == "|":
@@ -538,10 +547,15 @@ class Parser:
         """at `fn`: returns dict(name, selfkind, params [(pattern, type)], ret, body)"""
         self.expect("fn")
         name = self.ident()
-        consts = []
+        consts, mutparams, itergen = [], [], []
+        def bound_scan():
+            # `X: Iterator<..>` (in the generics or the where clause): X is an iterator type
+            if self.kind() == "id" and self.peek(1) == ":" and self.peek(2) == "Iterator":
+                itergen.append(self.peek())
         if self.peek() == "<":
             d = 0
             while True:
+                bound_scan()
                 x = self.next().text
                 if x == "const" and self.kind() == "id":
                     consts.append(self.peek())
@@ -562,6 +576,8 @@ class Parser:
                 self.accept("mut"); self.next(); selfkind = "val"
             else:
                 p = self.pat(); self.expect(":")
+                if self.peek() == "&" and (self.peek(1) == "mut" or (self.kind(1) == "lifetime" and self.peek(2) == "mut")) and p[0] == "pid":
+                    mutparams.append(p[1])
                 params.append((p, self.ty()))
             self.accept(",")
         ret = ("unit",)
@@ -569,8 +585,10 @@ class Parser:
             ret = self.ty()
         if self.peek() == "where":
             while self.peek() != "{":
+                bound_scan()
                 self.next()
-        return {"name": name, "selfkind": selfkind, "params": params, "ret": ret, "body": self.block(), "consts": consts}
+        return {"name": name, "selfkind": selfkind, "params": params, "ret": ret, "body": self.block(), "consts": consts,
+                "mutparams": mutparams, "itergen": itergen}
 
 
 # ------------------------------------------------------------------ translation (usize backend)
@@ -615,6 +633,17 @@ ENUMS = {
                            ("Range", ["range"], "Matrix.SRange"), ("Not", ["rec"], "Matrix.SNot"),
                            ("And", ["rec", "rec"], "Matrix.SAnd"), ("Or", ["rec", "rec"], "Matrix.SOr")]},
 }
+# structs represented by the tuple of their fields (declaration order, checked against the source)
+RECORDS = {
+    "ShapeIterator": {"decl": "src/tensors/indexing.rs",
+                      "fields": [("shape", SHAPE_T), ("indexes", ("array", "usize")), ("finished", "bool")]},
+}
+# trace mode (kind `trace`): calls the translator cannot look into become events (tag, usize arguments)
+EVENT_TAGS = {"recursive call": 1}
+TRACE_OPAQUE = {
+    # fn -> parameter -> {"call": tag of calling it, method: tag}
+    "heaps_permutations": {"consumer": {"call": 0}, "list": {"swap": 2}},
+}
 ITER_ADAPTORS = ("map", "skip", "take", "zip", "enumerate", "rev")
 ITER_CONSUMERS = ("product", "sum", "all", "any", "count")
 CMP = {"<": ("%s <? %s", False), "<=": ("%s <=? %s", False), ">": ("%s <? %s", True), ">=": ("%s <=? %s", True),
@@ -646,10 +675,16 @@ class FnTr:
         self.mut_arrays = []       # for_mut mode: the `&mut [T; D]` parameters
         self.elem_alias = {}       # for_mut mode: array -> (alias variable, depth) of `let x = &mut ARRAY[d]`
         self.for_mut_end = None
+        self.loops = []            # in-body `for` loops being folded: the variables each one threads
+        self.mut_params = []       # fnmut mode: the `&mut` parameters (the result carries their final values)
+        self.itergen = []          # generic parameters bounded by Iterator (values of such a type are their remaining length)
+        self.trace = None          # trace mode: Rust-side key of the hidden event list variable
+        self.opaque = {}           # trace mode: parameter name -> event tag of calling it / its methods
+        self.rec_name = None       # trace mode: the function's own name (a recursive call is an event)
 
     # ---- names
     def fresh(self, base):
-        b = base.lstrip("$")
+        b = base.lstrip("$\0")
         if b in COQ_RESERVED or b.startswith("gen_") or (b.startswith("tmp") and base != "tmp"):
             b += "_"
         if base == "tmp":
@@ -697,11 +732,22 @@ class FnTr:
                 return ("enum", n)
             if n in OPAQUE:
                 return ("opaque", n)
+            if n == "Vec" and len(a) == 1:
+                return "veclen"        # a Vec of opaque values is represented by its length
+            if n in self.itergen and not a:
+                return "iterlen"       # an iterator of opaque values: the number of items it still yields
+            if n in RECORDS:
+                self.u.check_record(n)
+                return ("record", n)
         raise Unsupported("type %r" % (t,))
 
     def coq_ty(self, t):
-        if t in ("usize", "dim", "position"):
+        if t in ("usize", "dim", "position", "veclen", "iterlen"):
             return "N"
+        if t == "trace":
+            return "(list (N * list N))"
+        if t[0] == "record":
+            return "(%s)" % " * ".join(self.coq_ty(fty) for _, fty in RECORDS[t[1]]["fields"])
         if t == "bool":
             return "bool"
         if t == "unit":
@@ -805,7 +851,16 @@ class FnTr:
             if arr == ("field", ("path", ["self"]), "data") and self.self_ty == "Matrix":
                 # Vec indexing: the element is identified by its position (see notes/GEN.md)
                 return self.tr(ix, env, lambda t, ty: self.want(ty, "usize") or k(t, "position"), False, pure)
-            raise Unsupported("indexing other than ARRAY[loop counter] / self.data[i]")
+            if arr[0] == "un" and arr[1] == "*":
+                arr = arr[2]
+            if arr[0] == "path" and len(arr[1]) == 1 and arr[1][0] in env and arr[1][0] not in self.abstract \
+               and isinstance(env[arr[1][0]][1], tuple) and env[arr[1][0]][1][0] == "array":
+                # ARRAY[e] at a computed index: the bounds check is part of the translation
+                if pure:
+                    raise Impure()
+                at, aty = env[arr[1][0]][0], env[arr[1][0]][1]
+                return self.tr(ix, env, lambda ti, tyi: self.want(tyi, "usize") or self.bind("gen_nth %s %s" % (atom(at), atom(ti)), aty[1], k))
+            raise Unsupported("indexing other than ARRAY[loop counter] / self.data[i] / ARRAY[e] of a local or parameter array")
         if kind == "bin":
             op, a, b = e[1], e[2], e[3]
             if op in ("+", "-", "*"):
@@ -814,9 +869,20 @@ class FnTr:
                 f = {"+": "u_add", "-": "u_sub", "*": "u_mul"}[op]
                 return self.tr(a, env, lambda ta, tya: self.want(tya, "usize") or self.tr(b, env, lambda tb, tyb:
                                self.want(tyb, "usize") or self.bind("%s md %s %s" % (f, atom(ta), atom(tb)), "usize", k)))
+            if op == "%":
+                if b[0] != "int" or b[1] == 0:
+                    raise Unsupported("`%` with a divisor that is not a non-zero literal")
+                return self.tr(a, env, lambda ta, tya: self.want(tya, "usize") or k("%s mod %d" % (atom(ta), b[1]), "usize"), False, pure)
             if op in CMP or op == "!=":
                 fmt, swap = CMP["==" if op == "!=" else op]
                 def kc(ta, tya, tb, tyb):
+                    if op in ("==", "!=") and isinstance(tya, tuple) and tya[0] == "opt" and isinstance(tyb, tuple) and tyb[0] == "opt" \
+                       and tya[1] in ("usize", None) and tyb[1] in ("usize", None):
+                        s_ = "gen_opt_eqb %s %s" % (atom(ta), atom(tb))
+                        return k("negb (%s)" % s_ if op == "!=" else s_, "bool")
+                    if op in ("==", "!=") and tya == "bool" and tyb == "bool":
+                        s_ = "Bool.eqb %s %s" % (atom(ta), atom(tb))
+                        return k("negb (%s)" % s_ if op == "!=" else s_, "bool")
                     if self.want(tya, "usize") or self.want(tyb, "usize"):
                         pass
                     x, y = (tb, ta) if swap else (ta, tb)
@@ -848,23 +914,43 @@ class FnTr:
             return self.tr(e[1], env, kc, False, pure)
         if kind == "tuple":
             return self.tr_list(e[1], env, lambda ts, tys: k("(%s)" % ", ".join(ts), ("tuple", tys)), pure)
+        if kind == "arrayrep":
+            # [e; N]: N copies of a panic-free e
+            te, tye = self.pure(e[1], env)
+            return self.tr(e[2], env, lambda tn, tyn: self.want(tyn, "usize") or k("repeat %s (N.to_nat %s)" % (atom(te), atom(tn)), ("array", tye)), False, pure)
         if kind == "struct":
             name = e[1]
             if name == "Self" and self.self_ty:
                 name = self.self_ty
-            if name not in STRUCTS or STRUCTS[name]["ignored"]:
+            if name in RECORDS:
+                # a struct the translator represents by the tuple of its fields (declaration order)
+                self.u.check_record(name)
+                given = dict(e[2])
+                order = [f for f, _ in RECORDS[name]["fields"]]
+                if sorted(given) != sorted(order) or len(e[2]) != len(order):
+                    raise Unsupported("struct literal %s with fields %s" % (name, sorted(given)))
+                written = [f for f, _ in e[2]]
+                def kr(ts, tys):
+                    val, vty = dict(zip(written, ts)), dict(zip(written, tys))
+                    for f, fty in RECORDS[name]["fields"]:
+                        self.want(vty[f], fty)
+                    return k("(%s)" % ", ".join(val[f] for f in order), ("record", name))
+                return self.tr_list([given[f] for f in written], env, kr, pure)
+            if name not in STRUCTS:
                 raise Unsupported("struct literal %s" % name)
             self.u.check_struct(name)
             given = dict(e[2])
             order = [f for f, _, _ in STRUCTS[name]["fields"]]
-            if sorted(given) != sorted(order):
+            ignored = STRUCTS[name]["ignored"]
+            if sorted(given) != sorted(order + ignored) or len(e[2]) != len(order) + len(ignored):
                 raise Unsupported("struct literal %s with fields %s" % (name, sorted(given)))
             # Rust evaluates the field expressions in the order written
             written = [f for f, _ in e[2]]
             def ks(ts, tys):
                 val = dict(zip(written, ts))
-                for t_ in tys:
-                    self.want(t_, "usize")
+                for f_, t_ in zip(written, tys):
+                    if f_ not in ignored:
+                        self.want(t_, "usize")
                 return k("%s %s" % (STRUCTS[name]["ctor"], " ".join(atom(val[f]) for f in order)), ("struct", name))
             return self.tr_list([given[f] for f in written], env, ks, pure)
         if kind == "call":
@@ -903,6 +989,46 @@ class FnTr:
             recv, name, args = e[1], e[2], e[3]
             if name in ITER_CONSUMERS and self.is_iter(recv):
                 return self.tr_consumer(recv, name, args, env, k, pure)
+            if recv == ("field", ("path", ["self"]), "data") and name == "is_empty" and not args and "\0kept" in env:
+                # after self.data.retain(..): the storage is empty iff no value was kept
+                return k("negb (existsb (fun b => b) %s)" % env["\0kept"][0], "bool")
+            if name in ("by_ref", "take", "collect::<>", "collect", "len", "is_empty") and recv[0] in ("path", "mcall"):
+                rty = self.type_of(recv, env)
+                if rty in ("veclen", "iterlen"):
+                    def kv(t, ty):
+                        if ty == "iterlen" and name == "by_ref" and not args:
+                            return k(t, "iterlen")
+                        if ty == "iterlen" and name == "take" and len(args) == 1:
+                            return self.tr(args[0], env, lambda tn, tyn: self.want(tyn, "usize") or k("N.min %s %s" % (atom(tn), atom(t)), "iterlen"), False, pure)
+                        if ty == "iterlen" and name in ("collect::<>", "collect") and not args:
+                            return k(t, "veclen")
+                        if ty == "veclen" and name == "len" and not args:
+                            return k(t, "usize")
+                        if ty == "veclen" and name == "is_empty" and not args:
+                            return k("%s =? 0" % atom(t), "bool")
+                        raise Unsupported("method .%s on a value of type %r" % (name, ty))
+                    return self.tr(recv, env, kv, False, pure)
+            if name == "first" and not args:
+                # slice.first(): the head, if any
+                def kfi(t, ty):
+                    if not (isinstance(ty, tuple) and ty[0] == "array"):
+                        raise Unsupported(".first() of a value of type %r" % (ty,))
+                    return k("hd_error %s" % atom(t), ("opt", ty[1]))
+                return self.tr(recv, env, kfi, False, pure)
+            if name == "map_or" and len(args) == 2 and args[1][0] == "closure":
+                # Option::map_or(default, |x| e) with a panic-free default and closure
+                def kmo(t, ty):
+                    if not (isinstance(ty, tuple) and ty[0] == "opt") or ty[1] is None:
+                        raise Unsupported(".map_or on a value of type %r" % (ty,))
+                    try:
+                        td, tyd = self.pure(args[0], env)
+                    except Impure:
+                        raise Unsupported("the default of .map_or can panic")
+                    f, rty = self.closure_fun(args[1], ty[1], env, ".map_or")
+                    self.want(rty, tyd)
+                    v = self.fresh("tmp")
+                    return k("match %s with Some %s => %s %s | None => %s end" % (t, v, f, v, atom(td)), tyd)
+                return self.tr(recv, env, kmo, False, pure)
             if name == "len" and not args:
                 def kl(t, ty):
                     if not (isinstance(ty, tuple) and ty[0] == "array"):
@@ -957,10 +1083,16 @@ class FnTr:
         if kind == "return":
             if pure:
                 raise Impure()
-            return self.tr(e[1], env, lambda t, ty: self.leaf_return(t, ty))
+            if self.loops:
+                raise Unsupported("`return` from inside a `for` loop that is translated as a fold")
+            return self.tr(e[1], env, lambda t, ty: self.leaf_return(t, ty, env))
         if kind == "continue":
-            if pure or self.flow is None:
-                raise Impure() if pure else Unsupported("continue outside a loop body")
+            if pure:
+                raise Impure()
+            if self.loops:
+                return "Ok %s" % self.tuple_of([env[n][0] for n in self.loops[-1]])
+            if self.flow is None:
+                raise Unsupported("continue outside a loop body")
             return self.leaf_next(env)
         if kind == "block":
             return self.tr_block(e, env, k, tail, pure)
@@ -1030,6 +1162,8 @@ class FnTr:
         recv, name, args = e[1], e[2], e[3]
         if name in ("iter", "into_iter") and not args:
             def ks(t, ty):
+                if ty == "veclen":
+                    return k("gen_range 0 %s" % atom(t), "position")     # the i-th value is identified by i
                 if not (isinstance(ty, tuple) and ty[0] == "array"):
                     raise Unsupported(".%s() on a value of type %r" % (name, ty))
                 return k(t, ty[1])
@@ -1156,15 +1290,23 @@ class FnTr:
         if not top:
             self.depth += 1
             self.thread_base = self.depth
+        saved_depth = self.depth - (0 if top else 1)
+        def k_outside(t, ty):
+            # what follows a block used as a value is outside the block again
+            here = (self.depth, self.thread_base)
+            self.depth, self.thread_base = saved_depth, saved_base
+            try:
+                return k(t, ty)
+            finally:
+                self.depth, self.thread_base = here
         def done(env_):
             if top:
                 if tl is None:
                     return self.body_end(env_, None, None)
                 return self.tr(tl, env_, lambda t, ty: self.body_end(env_, t, ty), True, pure)
             if tl is None:
-                return k("tt", "unit")
-            return self.tr(tl, env_, k, tail, pure)
-        saved_depth = self.depth - (0 if top else 1)
+                return k_outside("tt", "unit")
+            return self.tr(tl, env_, k_outside, tail, pure)
         try:
             return self.tr_stmts(stmts, 0, dict(env), done, pure)
         finally:
@@ -1284,6 +1426,22 @@ class FnTr:
                     e2 = dict(env); e2[n] = (v, env[n][1], env[n][2]); e2[("#", n, env[n][2])] = e2[n]
                     return "let %s := %s in %s" % (v, t, rest(e2))
                 return self.tr(rhs, env, ka)
+            if lhs[0] == "index" and lhs[1][0] == "path" and len(lhs[1][1]) == 1 and lhs[1][1][0] in env \
+               and lhs[1][1][0] not in self.abstract and isinstance(env[lhs[1][1][0]][1], tuple) and env[lhs[1][1][0]][1][0] == "array":
+                # ARRAY[e] = v at a computed index (bounds-checked): the array variable is rebound
+                n = lhs[1][1][0]
+                if env[n][2] < self.thread_base:
+                    raise Unsupported("assignment to `%s[..]` from inside a block that is used as a value" % n)
+                aty = env[n][1]
+                def kix(ti, tyi):
+                    self.want(tyi, "usize")
+                    def kv(t, ty):
+                        self.want(ty, aty[1])
+                        v = self.fresh(n)
+                        e2 = dict(env); e2[n] = (v, aty, env[n][2]); e2[("#", n, env[n][2])] = e2[n]
+                        return "obind (gen_upd %s %s %s) (fun %s => %s)" % (atom(env[n][0]), atom(ti), atom(t), v, rest(e2))
+                    return self.tr(rhs, env, kv)
+                return self.tr(lhs[2], env, kix)
             if lhs[0] == "field" and lhs[1] == ("path", ["self"]) and "self" in env and self.selfkind == "mut":
                 sv, sty, sd = env["self"]
                 if sd < self.thread_base or sty[0] != "struct":
@@ -1322,6 +1480,32 @@ class FnTr:
                         e2 = dict(env); e2[n] = (v, sty, env[n][2]); e2[("#", n, env[n][2])] = e2[n]
                         return "obind (%s md %s %s) (fun %s => %s)" % (cname, env[n][0], " ".join(atom(x) for x in ts), v, rest(e2))
                     return self.tr_list(e[3], env, kmm)
+            if e[0] == "mcall" and e[2] == "truncate" and len(e[3]) == 1 and e[1][0] == "path" and len(e[1][1]) == 1 \
+               and e[1][1][0] in env and env[e[1][1][0]][1] == "veclen":
+                n = e[1][1][0]
+                if env[n][2] < self.thread_base:
+                    raise Unsupported("`%s.truncate(..)` from inside a block that is used as a value" % n)
+                def ktr(t, ty):
+                    self.want(ty, "usize")
+                    v = self.fresh(n)
+                    e2 = dict(env); e2[n] = (v, "veclen", env[n][2]); e2[("#", n, env[n][2])] = e2[n]
+                    return "let %s := N.min %s %s in %s" % (v, atom(env[n][0]), atom(t), rest(e2))
+                return self.tr(e[3][0], env, ktr)
+            ev = self.event_of(e, env)
+            if ev is not None:
+                tag, args = ev
+                def kev(ts, tys):
+                    vals = []
+                    for t_, ty_ in zip(ts, tys):
+                        if ty_ == "bool":
+                            vals.append("(if %s then 1 else 0)" % t_)
+                        else:
+                            self.want(ty_, "usize"); vals.append(t_)
+                    old = env[self.trace]
+                    v = self.fresh("trace")
+                    e2 = dict(env); e2[self.trace] = (v, "trace", old[2]); e2[("#", self.trace, old[2])] = e2[self.trace]
+                    return "let %s := %s ++ [(%d, [%s])] in %s" % (v, old[0], tag, "; ".join(vals), rest(e2))
+                return self.tr_list(args, env, kev)
             if e[0] == "assert":
                 return self.tr(e[1], env, lambda tc, tyc: self.want(tyc, "bool") or "if %s then %s else Panic" % (tc, rest(env)))
             if e[0] in ("if", "match", "block"):
@@ -1330,13 +1514,127 @@ class FnTr:
             # branch that falls through
             return self.tr(e, env, lambda t, ty: rest(env), True)
         if s[0] == "for":
-            raise Unsupported("`for` loop (only its body can be extracted)")
+            if pure:
+                raise Impure()
+            return self.tr_for(s, env, rest)
         raise Unsupported("statement %s" % s[0])
 
+    # ---- trace mode: calls the translator cannot look into are recorded as events (tag, usize arguments)
+    def event_of(self, e, env):
+        if self.trace is None:
+            return None
+        usable = lambda a: not (a[0] == "path" and len(a[1]) == 1 and a[1][0] in self.opaque) and \
+            not (a[0] == "un" and a[1] == "&mut" )
+        if e[0] == "call" and e[1][0] == "path" and len(e[1][1]) == 1:
+            f = e[1][1][0]
+            if f in self.opaque and f not in env:
+                return self.opaque[f]["call"], [a for a in e[2] if usable(a)]
+            if f == self.rec_name:
+                return EVENT_TAGS["recursive call"], [a for a in e[2] if usable(a)]
+        if e[0] == "mcall" and e[1][0] == "path" and len(e[1][1]) == 1 and e[1][1][0] in self.opaque and e[1][1][0] not in env:
+            tag = self.opaque[e[1][1][0]].get(e[2])
+            if tag is None:
+                raise Unsupported("method .%s of the opaque parameter `%s` (no event tag configured)" % (e[2], e[1][1][0]))
+            return tag, list(e[3])
+        return None
+
+    # ---- a `for` loop inside a body: a fold over the variables its body assigns
+    def assigned_names(self, e, out):
+        if isinstance(e, tuple):
+            if e and e[0] == "assign":
+                lhs = e[1]
+                while lhs[0] == "un" and lhs[1] == "*":
+                    lhs = lhs[2]
+                if lhs[0] == "index":
+                    lhs = lhs[1]
+                if lhs[0] == "field" and lhs[1] == ("path", ["self"]):
+                    raise Unsupported("assignment to a field of self inside a `for` loop")
+                if lhs[0] == "path" and len(lhs[1]) == 1 and lhs[1][0] not in out:
+                    out.append(lhs[1][0])
+            if e and e[0] == "mcall" and e[2] == "truncate" and e[1][0] == "path" and len(e[1][1]) == 1 and e[1][1][0] not in out:
+                out.append(e[1][1][0])
+            if e and e[0] in ("call", "mcall") and self.trace is not None and self.trace not in out:
+                try:
+                    if self.event_of(e, {}) is not None:
+                        out.append(self.trace)
+                except Unsupported:
+                    out.append(self.trace)
+            for x in e:
+                self.assigned_names(x, out)
+        elif isinstance(e, list):
+            for x in e:
+                self.assigned_names(x, out)
+
+    def tr_for(self, s, env, rest):
+        pat, it, body = s[1], s[2], s[3]
+        names = []
+        self.assigned_names(body, names)
+        state = [n for n in names if n in env]
+        for n in state:
+            if env[n][0] == "?" or env[n][2] < self.thread_base or n in self.abstract:
+                raise Unsupported("the `for` loop assigns `%s`, which cannot be threaded here" % n)
+        if not self.is_iter(it):
+            raise Unsupported("`for` over something that is not an iterator chain / range")
+        stys = [env[n][1] for n in state]
+        sty = "unit" if not state else self.coq_ty(stys[0]) if len(state) == 1 else "(%s)" % " * ".join(self.coq_ty(t) for t in stys)
+        def klist(lt, ety):
+            self.depth += 1
+            try:
+                env2, svars = dict(env), []
+                for n in state:
+                    v = self.fresh(n)
+                    env2[n] = (v, env[n][1], env[n][2]); env2[("#", n, env[n][2])] = env2[n]
+                    svars.append(v)
+                xv = self.fresh(pat[1] if pat[0] == "pid" else "x")
+                self.loops.append(state)
+                try:
+                    end = lambda e_: "Ok %s" % self.tuple_of([e_[n][0] for n in state])
+                    if pat[0] == "pid":
+                        env3 = dict(env2); env3[pat[1]] = (xv, ety, self.depth)
+                        btext = self.stmt_block(body, env3, env2, end)
+                    else:
+                        btext = self.bind_pattern(pat, xv, ety, env2, lambda e3: self.stmt_block(body, e3, env2, end))
+                finally:
+                    self.loops.pop()
+            finally:
+                self.depth -= 1
+            spat = "_" if not svars else svars[0] if len(svars) == 1 else "st"
+            slet = "" if len(svars) <= 1 else "let '(%s) := st in " % ", ".join(svars)
+            init = self.tuple_of([env[n][0] for n in state])
+            after, e4 = [], dict(env)
+            for n in state:
+                v = self.fresh(n)
+                e4[n] = (v, env[n][1], env[n][2]); e4[("#", n, env[n][2])] = e4[n]
+                after.append(v)
+            apat = "_" if not after else after[0] if len(after) == 1 else "st"
+            alet = "" if len(after) <= 1 else "let '(%s) := st in " % ", ".join(after)
+            return "obind (gen_fold (fun (%s : %s) (%s : %s) => %s%s) %s %s) (fun %s => %s%s)" % (
+                spat, sty, xv, self.coq_ty(ety), slet, btext, atom(init), atom(lt), apat, alet, rest(e4))
+        return self.tr_iter(it, env, klist)
+
     # ---- leaves
-    def leaf_return(self, t, ty):
+    def tuple_of(self, vs):
+        return "tt" if not vs else vs[0] if len(vs) == 1 else "(%s)" % ", ".join(vs)
+
+    def type_of(self, e, env):
+        """type of a panic-free receiver expression (dry run; None = unknown)"""
+        saved = (self.n, set(self.used), self.depth, self.thread_base)
+        box = []
+        try:
+            self.tr(e, env, lambda t, ty: box.append(ty) or "Ok tt")
+            return box[0] if box else None
+        except (Unsupported, Impure):
+            return None
+        finally:
+            self.n, self.used, self.depth, self.thread_base = saved
+
+    def leaf_return(self, t, ty, env=None):
         if self.closure_state is not None:
             raise Unsupported("`return` inside a state-passing closure")
+        if self.trace is not None:
+            return "Ok %s" % env[self.trace][0]
+        if self.mut_params:
+            return "Ok (%s, %s)" % (t, self.tuple_of([env[n][0] for n in self.mut_params]))
         if self.flow is not None:
             return "Ok (Return %s)" % atom(t)
         return "Ok %s" % atom(t)
@@ -1358,6 +1656,10 @@ class FnTr:
             return "Ok (%s, %s)" % (t if t is not None else "tt", st)
         if self.flow is not None:
             return self.leaf_next(env)
+        if self.trace is not None:
+            return "Ok %s" % env[self.trace][0]
+        if self.mut_params:
+            return "Ok (%s, %s)" % (t if t is not None else "tt", self.tuple_of([env[n][0] for n in self.mut_params]))
         if self.selfkind == "mut" and self.ret_ty == "unit":
             return "Ok %s" % env["self"][0]
         if t is None:
@@ -1427,6 +1729,36 @@ class FileUnit:
                 self.checked.add(name)
                 return
         raise Unsupported("struct %s is not declared in %s" % (name, self.rel))
+
+    def check_record(self, name):
+        """the declaration `struct name { .. }` must have exactly the configured field names, in order"""
+        u = self.other_unit(RECORDS[name]["decl"])
+        if ("record", name) in u.checked:
+            return
+        toks = u.toks
+        for i, t in enumerate(toks):
+            if t.text == "struct" and t.kind == "id" and toks[i + 1].text == name:
+                j = i + 2
+                while toks[j].text != "{":
+                    if toks[j].text in (";", "("):
+                        raise Unsupported("struct %s is not a struct with named fields" % name)
+                    j += 1
+                p = Parser(toks, j + 1)
+                fields = []
+                while not p.accept("}"):
+                    if p.peek() == "#":
+                        raise Unsupported("attribute on a field of struct %s" % name)
+                    if p.accept("pub"):
+                        if p.accept("("):
+                            while not p.accept(")"):
+                                p.next()
+                    f = p.ident(); p.expect(":"); p.ty(); p.accept(",")
+                    fields.append(f)
+                if fields != [f for f, _ in RECORDS[name]["fields"]]:
+                    raise Unsupported("struct %s now has fields %s; the translator is configured for %s" % (name, fields, [f for f, _ in RECORDS[name]["fields"]]))
+                u.checked.add(("record", name))
+                return
+        raise Unsupported("struct %s is not declared in %s" % (name, u.rel))
 
     def other_unit(self, rel):
         if rel == self.rel or self.from_text:
@@ -1623,8 +1955,14 @@ class FileUnit:
             return res
         raise Unsupported("no unique inherent fn %s::%s (%s)" % (owner, name, last))
 
-    def translate_fn(self, fn, owner, coq):
+    def translate_fn(self, fn, owner, coq, mode=None):
+        """mode None: a plain function / method.  mode "fnmut": a free function with `&mut`
+        parameters; they are local mutable variables and the result is (value, their final
+        values in declaration order).  mode "trace": parameters of types outside the subset are
+        opaque objects, calls of / on them and recursive calls are events; the result is the
+        event list of ONE invocation."""
         tr = FnTr(self, owner)
+        tr.itergen = fn.get("itergen", [])
         ret0 = fn["ret"]
         # a &mut self method that returns a value is translated like a &self one (any
         # assignment to a field of self is then outside the subset)
@@ -1638,15 +1976,20 @@ class FileUnit:
             v = tr.fresh("self")
             env["self"] = (v, ("struct", owner), 0)
             params.append("(%s : %s)" % (v, STRUCTS[owner]["coq"]))
+        if mode == "trace":
+            tr.opaque = TRACE_OPAQUE.get(fn["name"], {})
+            tr.rec_name = fn["name"]
         for p, t in fn["params"]:
-            ty = tr.ty(t)
             if p[0] != "pid":
                 raise Unsupported("parameter pattern %r" % (p,))
+            if mode == "trace" and p[1] in tr.opaque:
+                continue
+            ty = tr.ty(t)
             v = tr.fresh(p[1])
             env[p[1]] = (v, ty, 0)
             params.append("(%s : %s)" % (v, tr.coq_ty(ty)))
             inner = t
-            if inner[0] == "array" and inner[2] in fn.get("consts", []) and inner[2] not in env:
+            if inner[0] == "array" and inner[2][:1].isalpha() and inner[2] not in env:
                 # the const generic length as a value: the length of an array that has it
                 env[inner[2]] = ("(N.of_nat (length %s))" % v, "usize", 0)
         ret = tr.ty(fn["ret"])
@@ -1655,8 +1998,21 @@ class FileUnit:
             out_ty = ("struct", owner)
         else:
             out_ty = ret
+        out_coq = None
+        if mode == "fnmut":
+            tr.mut_params = [n for n in fn.get("mutparams", []) if n in env]
+            if not tr.mut_params:
+                raise Unsupported("no `&mut` parameter")
+            out_coq = "(%s * %s)" % (tr.coq_ty(ret), tr.coq_ty(env[tr.mut_params[0]][1]) if len(tr.mut_params) == 1 else
+                                     "(%s)" % " * ".join(tr.coq_ty(env[n][1]) for n in tr.mut_params))
+        if mode == "trace":
+            if ret != "unit":
+                raise Unsupported("trace mode is for functions without a result")
+            tr.trace = "\0trace"
+            env[tr.trace] = ("[]", "trace", 0)
+            out_coq = tr.coq_ty("trace")
         body = tr.tr_block(fn["body"], env, None, top=True)
-        text = "Definition %s (md : mode) %s : outcome %s :=\n  %s." % (coq, " ".join(params), tr.coq_ty(out_ty), body)
+        text = "Definition %s (md : mode) %s : outcome %s :=\n  %s." % (coq, " ".join(params), out_coq or tr.coq_ty(out_ty), body)
         self.defs.append((coq, text))
         if tr.selfkind == "mut":
             self.mut_methods.add(coq)      # the result is the updated self
@@ -1960,6 +2316,7 @@ class FileUnit:
         env, params = {}, []
         tr.selfkind = fn["selfkind"]
         tr.ret_ty = None
+        tr.itergen = fn.get("itergen", [])
         if fn["selfkind"]:
             if owner not in STRUCTS:
                 raise Unsupported("self of type %s" % owner)
@@ -2078,6 +2435,7 @@ class FileUnit:
                 spat = "_" if not svars else svars[0] if len(svars) == 1 else "'(%s)" % ", ".join(svars)
                 init = "tt" if not state else env_[state[0]][0] if len(state) == 1 else "(%s)" % ", ".join(env_[n][0] for n in state)
                 kept = f.fresh("kept")
+                env_ = dict(env_); env_["\0kept"] = (kept, "flags", 0)
                 post = f.tr_stmts(stmts[at[0] + 1:], 0, env_, lambda e_: "Ok (%s, %s)" % (kept, e_["self"][0]))
                 return "obind (gen_retain (fun (st : %s) => let %s := st in %s md %s) %s %s) (fun %s => %s)" % (
                     sty, spat, name, " ".join([env_[n][0] for n, _ in caps] + svars), atom(init), vn, kept, post)
@@ -2091,7 +2449,11 @@ class FileUnit:
     #      POS of `self.data.insert(POS, VALUE)` as a function of the loop variable, and (when the
     #      loop header and the statements around it are in the subset) the whole method as
     #      `the list of insertion positions in order, and the new self`
-    def translate_positions(self, fn, owner, coq):
+    def translate_positions(self, fn, owner, coq, nested=False):
+        """nested=True (the `_with` methods, whose validation must come BEFORE the first insertion):
+        the frame has type outcome (list N * outcome gen_matrix) - the outer outcome is what happens
+        before and while the values are inserted, the inner one what happens after the loop, so
+        a check moved behind the loop is a different term."""
         stmts, tail = fn["body"][1], fn["body"][2]
         if tail is not None:
             stmts = stmts + [("expr", tail)]
@@ -2142,22 +2504,32 @@ class FileUnit:
             f = FnTr(self, owner); f.used = set(tr.used)
             fenv, fparams = self.method_env(fn, owner, f)
             f.selfkind, f.ret_ty = fn["selfkind"], "unit"
-            if fn["selfkind"] != "mut" or fn["ret"] != ("unit",) or pat[0] != "pid":
+            if fn["selfkind"] != "mut" or fn["ret"] != ("unit",) or (pat[0] != "pid" and not nested):
                 raise Unsupported("the frame is generated for `&mut self` methods with a `for x in <range>` loop only")
             it = loop[2]
             if it[0] == "rangeexpr":
                 it = ("mcall", it, "into_iter", [])
+            counters_of_enumerate = pat[0] != "pid"
+            if counters_of_enumerate:
+                it = it[1]         # for (counter, value) in X.enumerate(): the counters of X's items
             def after(env_):
                 def kl(lt, ety):
-                    f.want(ety, "usize")
+                    if counters_of_enumerate:
+                        lt = "map fst (gen_enumerate %s)" % atom(lt)
+                    else:
+                        f.want(ety, "usize")
                     got = f.fresh("positions")
-                    post = f.tr_stmts(stmts[at[0] + 1:], 0, env_, lambda e_: "Ok (%s, %s)" % (got, e_["self"][0]))
+                    if nested:
+                        post = "Ok (%s, %s)" % (got, atom(f.tr_stmts(stmts[at[0] + 1:], 0, env_, lambda e_: "Ok %s" % e_["self"][0])))
+                    else:
+                        post = f.tr_stmts(stmts[at[0] + 1:], 0, env_, lambda e_: "Ok (%s, %s)" % (got, e_["self"][0]))
                     return "obind (gen_map_m (%s md %s) %s) (fun %s => %s)" % (
                         name, " ".join(env_[n][0] for v, t, n in params0 if n in used or n == "self"), atom(lt), got, post)
                 return f.tr_iter(it, env_, kl)
             ftext = f.tr_stmts(stmts[:at[0]], 0, fenv, after)
             self.defs.append((coq, "Definition %s (md : mode) %s : outcome (list N * %s) :=\n  %s."
-                              % (coq, " ".join("(%s : %s)" % (v, t) for v, t, _ in fparams), STRUCTS[owner]["coq"], ftext)))
+                              % (coq, " ".join("(%s : %s)" % (v, t) for v, t, _ in fparams),
+                                 "outcome %s" % STRUCTS[owner]["coq"] if nested else STRUCTS[owner]["coq"], ftext)))
         except Unsupported as e:
             self.defs.append((coq, "(* frame of %s not generated: %s *)" % (coq, e)))
 
@@ -2379,9 +2751,19 @@ TARGETS = [
     ("src/matrices/mod.rs", "retain", "Matrix", "remove_column", "gen_Matrix_remove_column"),
     ("src/matrices/mod.rs", "retain", "Matrix", "retain_mut", "gen_Matrix_retain_mut"),
     ("src/matrices/mod.rs", "positions", "Matrix", "insert_row", "gen_Matrix_insert_row"),
-    ("src/matrices/mod.rs", "positions", "Matrix", "insert_row_with", "gen_Matrix_insert_row_with"),
+    ("src/matrices/mod.rs", "positions_with", "Matrix", "insert_row_with", "gen_Matrix_insert_row_with"),
     ("src/matrices/mod.rs", "positions", "Matrix", "insert_column", "gen_Matrix_insert_column"),
-    ("src/matrices/mod.rs", "positions", "Matrix", "insert_column_with", "gen_Matrix_insert_column_with"),
+    ("src/matrices/mod.rs", "positions_with", "Matrix", "insert_column_with", "gen_Matrix_insert_column_with"),
+    # wave 3: `for` loops inside bodies as folds (retain_mut's counting loops are part of its frame
+    # now), Vec / iterator parameters as lengths, struct literals with unmodelled fields
+    ("src/matrices/mod.rs", "fn", "Matrix", "from_flat_row_major", "gen_Matrix_from_flat_row_major"),
+    # C09: the iterators' step functions (`&mut` parameters: result = (value, their final values))
+    ("src/matrices/iterators.rs", "fnmut", None, "column_major_iter", "gen_column_major_iter"),
+    ("src/matrices/iterators.rs", "fnmut", None, "row_major_iter", "gen_row_major_iter"),
+    ("src/tensors/indexing.rs", "fn", "ShapeIterator", "from", "gen_ShapeIterator_from"),
+    ("src/tensors/indexing.rs", "fnmut", None, "iter", "gen_ShapeIterator_iter"),
+    # C07: one invocation of heaps_permutations as its event trace (consumer call / recursive call / swap)
+    ("src/linear_algebra.rs", "trace", None, "heaps_permutations", "gen_heaps_permutations"),
 ]
 
 PREAMBLE = """(* GENERATED by tools/gen_arith.py from the Rust sources of %s — do not edit.
@@ -2430,6 +2812,20 @@ Fixpoint gen_retain {S} (step : S -> outcome (bool * S)) (s : S) (n : nat) : out
   | O => Ok []
   | S n' => obind (step s) (fun r => obind (gen_retain step (snd r) n') (fun ks => Ok (fst r :: ks)))
   end.
+(* ARRAY[i] / ARRAY[i] = v at a computed index: Rust's bounds check is part of the translation *)
+Definition gen_nth {X} (xs : list X) (i : N) : outcome X :=
+  match nth_error xs (N.to_nat i) with Some v => Ok v | None => Panic end.
+Fixpoint gen_upd_nat {X} (xs : list X) (i : nat) (v : X) : option (list X) :=
+  match xs, i with
+  | [], _ => None
+  | _ :: r, O => Some (v :: r)
+  | x :: r, S i' => match gen_upd_nat r i' v with Some r' => Some (x :: r') | None => None end
+  end.
+Definition gen_upd {X} (xs : list X) (i : N) (v : X) : outcome (list X) :=
+  match gen_upd_nat xs (N.to_nat i) v with Some l => Ok l | None => Panic end.
+(* Option<usize> == Option<usize> *)
+Definition gen_opt_eqb (a b : option N) : bool :=
+  match a, b with Some x, Some y => x =? y | None, None => true | _, _ => false end.
 (* Iterator::try_fold over Option: stops at the first None *)
 Fixpoint gen_try_fold {A X} (step : A -> X -> outcome (option A)) (acc : A) (xs : list X) : outcome (option A) :=
   match xs with
@@ -2464,6 +2860,10 @@ def translate_target(u, kind, ctx, name, coq):
         u.translate_retain(u.locate_inherent(ctx, name), ctx, coq)
     elif kind == "positions":
         u.translate_positions(u.locate_inherent(ctx, name), ctx, coq)
+    elif kind == "positions_with":
+        u.translate_positions(u.locate_inherent(ctx, name), ctx, coq, nested=True)
+    elif kind in ("fnmut", "trace"):
+        u.translate_fn(u.locate(ctx, name), ctx[2] if ctx else None, coq, mode=kind)
     elif kind == "fn":
         owner = ctx[2]
         if ctx[1] is None:
@@ -2543,6 +2943,8 @@ ALT_FILES = {   # equivalence-proof target -> (generated file, proof files in bu
     "theories/Proofs/GenArithViewsP.vo": ("Arith.v", ["Proofs/GenArithP.v", "Proofs/GenArithViewsP.v"]),
     "theories/Proofs/GenNumericP.vo": ("ArithNumeric.v", ["Proofs/GenNumericP.v"]),
     "theories/Proofs/GenMatrixP.vo": ("Arith.v", ["Proofs/GenMatrixP.v"]),
+    "theories/Proofs/GenIterP.vo": ("Arith.v", ["Proofs/GenIterP.v"]),
+    "theories/Proofs/GenHeapP.vo": ("Arith.v", ["Proofs/GenHeapP.v"]),
 }
 ALT_MODULES = {"Gen.Arith": "Arith", "Gen.ArithNumeric": "ArithNumeric", "Proofs.GenArithP": "GenArithP"}
 
